@@ -629,15 +629,81 @@ def parser_from_configuration_stream(ctx, res):
                 res.violate("C16:parser", "generating / using a parser for a configuration raised %s" % type(e).__name__, dict(case, error=str(e)[:120]))
 
 
+def membership_and_helpers_stream(ctx, res):
+    """(a) membership agrees with enumeration and says NO to everything else: on plain and dynamic configurations every enumerated path of
+    a storing field is contained, and names that are no field — unknown names, paths that run through a string / list / dict value,
+    entries of a dict value — are not (and asking never raises); (b) the helper fields an `ApplicationModeField` adds at depth 0-2
+    are enumerated under the path their reference path reports, resolve by lookup and read the right value"""
+    import cincoconfig as cc
+    for dynamic in (False, True):
+        s = cc.Schema(dynamic=dynamic)
+        s.name = cc.StringField(default="first")
+        s.tags = cc.ListField(cc.StringField(), default=lambda: ["a"])
+        s.headers = cc.DictField(cc.StringField(), cc.StringField(), default=lambda: {"accept": "x"})
+        s.sub.port = cc.IntField(default=1)
+        s.sub.deeper.flag = cc.BoolField(default=False)
+        if dynamic:
+            s.sub2 = cc.Schema(dynamic=True)
+        cfg = s()
+        case = {"stream": "membership", "dynamic": dynamic}
+        res.case(stable(case), kind="membership")
+        bad = []
+        for p, _, f in cc.get_all_fields(s):
+            if isinstance(f, cc.Field) and type(f).__name__ not in ("VirtualField", "InstanceMethodField"):
+                try:
+                    if (p in cfg) is not True:
+                        bad.append([p, "an enumerated path is not contained"])
+                except Exception as e:  # noqa
+                    bad.append([p, "raised %s" % type(e).__name__])
+        for p in ("nope", "sub.nope", "sub.deeper.nope", "name.first", "tags.first", "tags.0", "headers.accept", "headers.nope", "sub.port.x", "sub2.nope" if dynamic else "sub9.x", ""):
+            try:
+                if (p in cfg) is not False:
+                    bad.append([p, "a name that is no field is contained"])
+            except Exception as e:  # noqa
+                bad.append([p, "asking raised %s" % type(e).__name__])
+        if bad:
+            res.violate("C16:membership", "membership does not agree with enumeration (or a membership test raised)", dict(case, problems=bad[:6]))
+    for depth in (0, 1, 2):
+        s = cc.Schema()
+        h = s
+        path = []
+        for q in ("svc", "runtime")[:depth]:
+            h = h[q]
+            path.append(q)
+        h.mode = cc.ApplicationModeField(default="blue", modes=["blue", "green"])
+        h.other = cc.StringField(default="o")
+        case = {"stream": "mode-helpers", "depth": depth}
+        res.case(stable(case), kind="mode-helpers")
+        cfg = s()
+        bad = []
+        want_paths = [".".join(path + [k]) for k in ("mode", "is_blue_mode", "is_green_mode", "other")]
+        got_paths = [p for p, _, f in cc.get_all_fields(s) if not isinstance(f, cc.Schema)]
+        if sorted(got_paths) != sorted(want_paths):
+            bad.append(["enumeration", got_paths])
+        for p, _, f in cc.get_all_fields(s):
+            try:
+                if s[p] is not f:
+                    bad.append([p, "lookup on the schema gives another object"])
+                if cc.item_ref_path(f) != p:
+                    bad.append([p, "reference path is %r" % cc.item_ref_path(f)])
+                if p.endswith("is_blue_mode") and cfg[p] is not True:
+                    bad.append([p, "reads %r" % cfg[p]])
+            except Exception as e:  # noqa
+                bad.append([p, "raised %s" % type(e).__name__])
+        if bad:
+            res.violate("C16:ref-path", "a helper field of an application-mode field is not named alike by enumeration, lookup and its reference path", dict(case, problems=bad[:5]))
+
+
 def run(ctx, n_quick=200, n_thorough=6000):
     res = Result()
+    guard(res, "C16", membership_and_helpers_stream, ctx, res)
     guard(res, "C16", parser_from_configuration_stream, ctx, res)
     guard(res, "C16", config_type_mount_stream, ctx, res)
     guard(res, "C16", naming_and_parser, ctx, res, ctx.n(n_quick, n_thorough))
     guard(res, "C16", explicit_key_stream, ctx, res)
     guard(res, "C16", parser_values_stream, ctx, res)
     guard(res, "C16", parser_corner_stream, ctx, res)
-    P.run_stream(ctx, res, "C16", ctx.n(n_quick, n_thorough), oracle, gen_ops=gen_ops, ops_len=(3, 6), schema_gen=lambda rng, t, k: no_collision_schema(rng, t, k))
+    guard(res, "C16", lambda: P.run_stream(ctx, res, "C16", ctx.n(n_quick, n_thorough), oracle, gen_ops=gen_ops, ops_len=(3, 6), schema_gen=lambda rng, t, k: no_collision_schema(rng, t, k)))
     return res
 
 
